@@ -139,6 +139,73 @@ assert bool(aa.isclose(ab, rtol=rtol, atol=atol)[0]) == want, "Awkward isclose"
 """
 
 
+def dtype_shape_pairs(ctx, r, dis, fails):
+    """== / != / isclose between NumPy (and Awkward) vector arrays of the SAME coordinate system whose columns have DIFFERENT dtypes
+    (int64 / int32 / float32 / float64, either side) or different but broadcastable shapes ((n,1) vs (n,), 0-d vs (n,)): operator,
+    method and numpy-function forms agree with each other and with the element-wise comparison of the stored values"""
+    import vector
+    n = 0
+    base = {"x": [1, 2, -3, 4], "y": [2, -1, 5, 3], "rho": [1, 2, 3, 4], "phi": [1, -2, 0, 3], "z": [3, 0, -2, 1], "theta": [1, 2, 1, 3], "eta": [0, 1, -1, 2],
+            "t": [9, 8, 7, 6], "tau": [1, 2, 3, 4]}
+    frac = {k: [v + (0.5 if i % 2 == 0 else 0.0) for i, v in enumerate(vs)] for k, vs in base.items()}     # equal in every second row only
+    dts = [("int64", "float64"), ("float64", "int64"), ("int32", "float64"), ("float32", "float64"), ("float64", "float32"), ("int64", "float32")]
+    for sig in (C.ALLSIGS if ctx.tier == "thorough" else [C.SIGS[2][0], C.SIGS[2][1]] + r.sample(C.SIGS[3], 2) + r.sample(C.SIGS[4], 3)):
+        names = list(C.signames(sig))
+        fl = r.choice("gm")
+        fnames = C.field_names(fl, sig)
+        for d1, d2 in dts:
+            def mkcols(dt, vals):
+                src = base if dt.startswith("int") else vals
+                return {fn: numpy.array(src[g], dtype=dt) for fn, g in zip(fnames, names)}
+            # left: d1 holding the integral values; right: d2 holding the fractional ones (or float32-rounded 0.1 offsets)
+            right_vals = frac if not (d1.startswith("float") and d2.startswith("float")) else {k: [v + 0.1 for v in vs] for k, vs in base.items()}
+            left_vals = base if not (d1.startswith("float") and d2.startswith("float")) else {k: [v + 0.1 for v in vs] for k, vs in base.items()}
+            try:
+                a = vector.array({fn: numpy.array(left_vals[g], dtype=d1) for fn, g in zip(fnames, names)}) if not d1.startswith("int") else vector.array(mkcols(d1, base))
+                b = vector.array({fn: numpy.array(right_vals[g], dtype=d2) for fn, g in zip(fnames, names)}) if not d2.startswith("int") else vector.array(mkcols(d2, base))
+            except Exception as e:  # noqa: BLE001
+                dis.append(f"dtype-pair harness: cannot build arrays {d1}/{d2} for {sig}: {type(e).__name__}")
+                continue
+            want_eq = [all(float(a[fn][i]) == float(b[fn][i]) for fn in fnames) for i in range(4)]
+            forms = {"a == b": lambda: a == b, "b == a": lambda: b == a, "a.equal(b)": lambda: a.equal(b), "numpy.equal(a, b)": lambda: numpy.equal(a, b),
+                     "not (a != b)": lambda: ~(a != b), "not a.not_equal(b)": lambda: ~a.not_equal(b), "not numpy.not_equal(b, a)": lambda: ~numpy.not_equal(b, a)}
+            for fname, f_ in forms.items():
+                n += 1
+                try:
+                    got = [bool(x) for x in numpy.asarray(f_()).tolist()]
+                except Exception as e:  # noqa: BLE001
+                    got = f"raises {type(e).__name__}: {str(e)[:60]}"
+                if got != want_eq:
+                    dis.append(f"dtype-pair {fl}:{sig} columns {d1} vs {d2}: {fname} = {got}; the stored coordinates are equal exactly in rows {want_eq}")
+                    fails.append({"key": f"dtype-pair:{fname}", "what": dis[-1][:400], "code": (
+                        "import numpy, vector\nnames = %r\na = vector.array({n: numpy.array(v, dtype=%r) for n, v in zip(names, %r)})\n"
+                        "b = vector.array({n: numpy.array(v, dtype=%r) for n, v in zip(names, %r)})\n"
+                        "want = [all(float(a[n][i]) == float(b[n][i]) for n in names) for i in range(4)]\n"
+                        "assert (a == b).tolist() == want and (b == a).tolist() == want and (~(a != b)).tolist() == want and a.equal(b).tolist() == want, ((a == b).tolist(), (b == a).tolist(), want)\n"
+                        % (fnames, d1, [a[fn].tolist() for fn in fnames], d2, [b[fn].tolist() for fn in fnames]))})
+                    break
+        # shapes: (4,1) vs (4,), 0-d vs (4,)
+        a1 = vector.array({fn: numpy.array(frac[g], dtype="float64") for fn, g in zip(fnames, names)})
+        col = a1.reshape(4, 1)
+        row = vector.array({fn: numpy.array(base[g], dtype="float64") for fn, g in zip(fnames, names)})
+        for fname, f_, shape in (("(4,1) == (4,)", lambda: col == row, (4, 4)), ("(4,) == (4,1)", lambda: row == col, (4, 4)), ("(4,1).equal((4,))", lambda: col.equal(row), (4, 4)),
+                                 ("0-d == (4,)", lambda: a1[1:2].reshape(()) == row, (4,)), ("(4,1) != (4,)", lambda: ~(col != row), (4, 4))):
+            n += 1
+            try:
+                got = numpy.asarray(f_())
+                want = numpy.array([[all(float(a1[fn][i]) == float(row[fn][j]) for fn in fnames) for j in range(4)] for i in range(4)])
+                if shape == (4,):
+                    want = want[1]
+                ok = got.shape == shape and got.tolist() == want.tolist()
+                why = f"shape {got.shape}, values {got.tolist()}"
+            except Exception as e:  # noqa: BLE001
+                ok, why = False, f"raises {type(e).__name__}: {str(e)[:60]}"
+            if not ok:
+                dis.append(f"shape-pair {fl}:{sig}: {fname}: {why}; expected shape {shape} and the element-wise comparison of the broadcast operands")
+                fails.append({"key": f"shape-pair:{fname}", "what": dis[-1][:400], "code": None})
+    return n
+
+
 def tolist(x):
     try:
         import awkward as ak
@@ -222,6 +289,7 @@ def correspondence(ctx):
                                 "==": bool(forms["eq"]["obj.method"][1]), "!=": bool(forms["ne"]["obj.method"][1])})
     n_def = isclose_definition(ctx, r, dis, fails)
     n_calls += n_def
+    n_calls += dtype_shape_pairs(ctx, r, dis, fails)
     ans = leanio.eval_float(reqs)
     for (op, key, tag, real, want), got in zip(expect, ans):
         if got[0] != "b":
